@@ -7,6 +7,7 @@ if [ -n "$(git status --porcelain --untracked-files=no)" ]; then echo "repo dirt
 git apply "$patch" || { echo "patch does not apply" >&2; exit 2; }
 trap 'git -C /repo checkout -- . ; find /verif/replays -name "found-*" -newer /tmp/.mutant_stamp -delete 2>/dev/null' EXIT
 touch /tmp/.mutant_stamp
+export TACHECK_EVIDENCE_DIR=/tmp/seeded-evidence; mkdir -p $TACHECK_EVIDENCE_DIR
 rc=0
 for id in "$@"; do
   out=$(cd /verif && ./check "$id" ${MUTANT_ARGS:-} 2>&1); c=$?
